@@ -93,6 +93,7 @@ class PfiRef:
             if not dict_eq(x_copy, x):
                 self.bad('x-passed', f"imputer received x_i={x_copy}, expected {x}", t)
             for inp in inputs:
+                sc.check_input_shape(self, inp, x, subset, t, f"feature {feat!r}")
                 for n in names:
                     if n != feat and not (inp[n] == x[n]):
                         self.bad('other-feature-changed', f"model input {inp} differs from x in feature {n!r} while "
